@@ -15,6 +15,7 @@ RT_BASE = 200_000
 RECV_BASE = 300_000
 BACK_BASE = 350_000
 RESTART_OFF = 400_000
+NOOP_BASE = 250_000
 HI = 1_000_000
 
 
@@ -92,7 +93,8 @@ class C13(Scenario):
             if early:
                 add(n, ["pairs", None, sample_pairs(n, rng.randint(4, 16)), False])
             add(n, ["snapall", None, 1, HI], "snap")
-        weights = {"pairs": 6, "triples": 2, "inset": 2, "roundtrip": 3, "snap": 2, "gc": 0.3}
+        weights = {"pairs": 6, "triples": 2, "inset": 2, "roundtrip": 3, "snap": 2, "gc": 0.3, "noop": 1.5}
+        ctr["noop"] = 0
         if nn > 1 and arm != "local":
             weights.update({"send": 4, "recv": 5})
         if arm in ("restart", "long"):
@@ -125,6 +127,36 @@ class C13(Scenario):
                 pools[n].append(out)
                 pkind[n][str(out)] = pkind[n].get(str(a))
                 equalish[n].append((a, out))
+            elif k == "noop" and pl:
+                # an operation that simplifies to (a part of) its own operand: constructors
+                # that return an existing node get __init__ re-run on it by Python
+                ex = [x for x in pl if pkind[n].get(str(x)) == "expr"]
+                if ex:
+                    a = rng.choice(ex)
+                    out = NOOP_BASE + ctr["noop"]
+                    ctr["noop"] += 1
+                    A = ["$", a]
+                    op = rng.choice(
+                        [
+                            ["call", out, "operator.mul", [1, A]],
+                            ["call", out, "operator.mul", [A, 1]],
+                            ["call", out, "operator.truediv", [A, 1]],
+                            ["call", out, "operator.pow", [A, 1]],
+                            ["call", out, "operator.add", [A, 0]],
+                            ["call", out, "operator.add", [0, A]],
+                            ["call", out, "operator.sub", [A, 0]],
+                            ["call", out, "builtins.abs", [A]],
+                            ["call", out, "ufl.conj", [A]],
+                            ["call", out, "ufl.real", [A]],
+                            ["call", out, "ufl.as_ufl", [A]],
+                            ["call", out, "ufl.as_tensor", [A]],
+                            ["call", out, "ufl.transpose", [A]],
+                            ["call", out, "ufl.variable", [A]],
+                            ["call", out, "operator.neg", [A]],
+                        ]
+                    )
+                    add(n, op)
+                    # its result is not tracked: only what it does to the pool matters
             elif k == "snap":
                 add(n, ["snapall", None, 1, HI], "snap")
             elif k == "gc":
